@@ -7,6 +7,8 @@ import (
 
 	"github.com/openconfig/goyang/pkg/yang"
 	"verif/mc/dump"
+	"verif/mc/explore"
+	"verif/mc/order"
 	"verif/mc/gen/scale"
 	"verif/mc/props/scalekit"
 )
@@ -23,6 +25,9 @@ func scaleCases(tier string) []scalekit.Case {
 	}
 	for _, n := range scale.Sizes(40, 129) {
 		out = append(out, scalekit.Case{Shape: "many-module-identities", N: n}, scalekit.Case{Shape: "many-bases", N: n})
+	}
+	for _, n := range scale.Sizes(24, 65) {
+		out = append(out, scalekit.Case{Shape: "equal-names", N: n})
 	}
 	maxK := 7
 	if tier == "thorough" {
@@ -57,7 +62,71 @@ func valuesOf(ms *yang.Modules, name string) (string, bool) {
 
 func sorted(xs []string) string { sort.Strings(xs); return strings.Join(xs, " ") }
 
+// equal-names: identities named a, k and z in each of n modules: the list of root is the same
+// sequence in every load (six fresh sets), holds 4 n identities, each once
+func checkEqualNames(cs scalekit.Case) scalekit.Verdict {
+	files := scale.EqualNames(cs.N)
+	first := ""
+	// on the instrumented build every single deviation of map iteration order is explored for the
+	// sizes around the threshold of 32 identities; elsewhere two load orders
+	var runs []*explore.X
+	if order.Active() && cs.N >= 7 && cs.N <= 10 {
+		explore.DFS(1, func(x *explore.X) {
+			order.Install(func(n int, site string) int { return x.Choose(n, site) })
+			ms := yang.NewModules()
+			for _, f := range files {
+				ms.Parse(f.Text, f.Name)
+			}
+			ms.Process()
+			order.Install(nil)
+			var seq []string
+			for _, v := range ms.Modules["m0"].Identity[0].Values {
+				seq = append(seq, yang.RootNode(v).Name+":"+v.Name)
+			}
+			s := strings.Join(seq, " ")
+			if first == "" {
+				first = s
+			} else if s != first && len(runs) == 0 {
+				runs = append(runs, x)
+				first = first + "\n--- under map-order choices " + fmt.Sprint(x.Choices) + ":\n" + s
+			}
+		}, nil, func() bool { return len(runs) > 0 })
+		if len(runs) > 0 {
+			return scalekit.Bad("values-sequence-depends-on-order", "the same sequence under every map iteration order", first)
+		}
+		first = ""
+	}
+	for round := 0; round < 6; round++ {
+		ms, errs, lerr := scalekit.Load(files, round%2 == 1)
+		if lerr != nil || len(errs) > 0 {
+			return scalekit.Bad("spurious-errors", "loads and processes", fmt.Sprint(lerr, dump.Errors(errs)))
+		}
+		var seq []string
+		seen := map[*yang.Identity]bool{}
+		for _, v := range ms.Modules["m0"].Identity[0].Values {
+			if seen[v] {
+				return scalekit.Bad("values-differ-from-reverse-reachability", "each identity once", "twice: "+v.Name)
+			}
+			seen[v] = true
+			seq = append(seq, yang.RootNode(v).Name+":"+v.Name)
+		}
+		if len(seq) != 4*cs.N {
+			return scalekit.Bad("values-differ-from-reverse-reachability", fmt.Sprintf("%d derived identities", 4*cs.N), fmt.Sprint(len(seq)))
+		}
+		s := strings.Join(seq, " ")
+		if first == "" {
+			first = s
+		} else if s != first {
+			return scalekit.Bad("values-sequence-depends-on-order", first, s)
+		}
+	}
+	return scalekit.OK()
+}
+
 func checkScale(cs scalekit.Case) scalekit.Verdict {
+	if cs.Shape == "equal-names" {
+		return checkEqualNames(cs)
+	}
 	var files []dump.File
 	want := map[string]string{} // identity -> sorted names of everything derived from it
 	switch cs.Shape {
